@@ -211,6 +211,7 @@ type Line struct {
 	File *File
 	No   int
 	Out  string // rendered text
+	FreeAll bool // exotic shape outside the supported fragment: nothing is demanded of any analyzer on this line
 }
 
 type Node struct {
@@ -775,6 +776,10 @@ func Compare(p *Prog, e *Expect, obs []Obs) (mm []Mismatch, judged int, classes 
 		}
 		k := fmt.Sprintf("%s:%d", l.File.RelPath(), l.No)
 		seenLoc[k] = true
+		if l.FreeAll {
+			classes["exotic=FREE"]++
+			continue
+		}
 		for _, cat := range Categories {
 			var x *LineExp
 			if m := e.ByLine[id]; m != nil {
